@@ -224,16 +224,29 @@ func H_C06_EncryptedLeaseSet() {
 //verif:witness constructed
 func H_C06_LeaseSet2() {
 	priv, pub := nd.Ed25519Key()
-	dest, _, err := destination.ReadDestination(identityBytes(4, pub))
-	nd.Assume(err == nil)
+	sigT := []int{7, 11}[nd.IntRange(0, 1)]
+	dest, ok := destWithSigType(sigT, pub)
+	nd.Assume(ok)
 	flags := nd.Uint16()
-	nd.Assume(flags&0xFFF9 == 0) // no offline block here, no reserved bits
+	nd.Assume(flags&0xFFF8 == 0) // no reserved bits
+	var off *offline_signature.OfflineSignature
+	signKey := priv
+	if flags&1 != 0 {
+		// offline keys: the destination key authorises a transient key, the transient key signs the lease set
+		tpriv, tpub := nd.Ed25519Key()
+		oe := nd.Uint32()
+		nd.Assume(oe != 0)
+		o, oerr := offline_signature.CreateOfflineSignature(oe, 7, tpub, ed25519.PrivateKey(priv), uint16(sigT))
+		nd.Assume(oerr == nil)
+		off = &o
+		signKey = tpriv
+	}
 	var l lease.Lease2
 	copy(l[:], nd.Bytes(40))
 	keys := []lease_set2.EncryptionKey{{KeyType: 4, KeyLen: 32, KeyData: nd.Bytes(32)}}
 	opts, oerr := data.GoMapToMapping(smallOptions())
 	nd.Assume(oerr == nil)
-	ls, lerr := lease_set2.NewLeaseSet2(dest, nd.Uint32(), nd.Uint16(), flags, nil, *opts, keys, []lease.Lease2{l}, ed25519.PrivateKey(priv))
+	ls, lerr := lease_set2.NewLeaseSet2(dest, nd.Uint32(), nd.Uint16(), flags, off, *opts, keys, []lease.Lease2{l}, ed25519.PrivateKey(signKey))
 	nd.Assert(lerr == nil, "ls2/constructed")
 	if lerr != nil {
 		return
